@@ -4,6 +4,7 @@ import BronVerif.Model.Hash.Sha2
 import BronVerif.Model.Hash.Blake2b
 import BronVerif.Model.Transcript
 import BronVerif.Model.H2C
+import BronVerif.Model.H2CMap
 import BronVerif.Model.Curves
 /-! Driver handlers for C19. -/
 namespace BronVerif.Drive.C19
@@ -104,6 +105,50 @@ def h2fModel (args : List String) : Option String :=
     | _ => some "err"
   | _ => none
 
+/-- field element(s) `c0[/c1]` -/
+def parseElem? (s : String) : Option (List Nat) := (s.splitOn "/").mapM hexToNat?
+
+def renderElem (cs : List Nat) : String := "/".intercalate (cs.map natToHex)
+
+/-- Decide a hash-to-curve output against the property: the point must be on the curve, in the prime-order
+subgroup, and equal `clear_cofactor(map(u0) + map(u1))` computed from the *straight-line RFC 9380
+specification* (`H2C.refMap`, published suite constants, `h_eff`).  The formulas regenerated from the Go
+source (`H2C.genMap`) must give the same two mapped points; a difference there alone is a broken tie
+(`DIFF`), not a failing input. -/
+def h2cDecide (curve : String) (us : List (List Nat)) (rhs : String) : Verdict :=
+  match Curves.byName? curve, H2C.rfcSuite? curve with
+  | some C, some S =>
+    if rhs.startsWith "err:script" then .unsupported ("C19 h2cmap " ++ rhs) else
+    match Curves.parse? C rhs with
+    | none => .bad "h2c.output" ("not a point: " ++ rhs)
+    | some P =>
+      if !Curves.onCurve C P then .bad "h2c.on-curve" ("hash-to-curve output is not on " ++ curve)
+      else if !Curves.inSubgroup C P then .bad "h2c.subgroup" ("hash-to-curve output is not in the prime-order subgroup of " ++ curve)
+      else match us with
+      | [u0, u1] =>
+        match H2C.refMap curve u0, H2C.refMap curve u1, H2C.genMap curve u0, H2C.genMap curve u1 with
+        | some r0, some r1, some g0, some g1 =>
+          if !(Curves.onCurve C r0 && Curves.onCurve C r1) then .unsupported ("C19 reference map of " ++ curve ++ " left the curve")
+          else
+            let ref := Curves.render C (H2C.combine C S.hEff r0 r1)
+            if ref != rhs then
+              -- RFC 9380 §6.6.3: a point of the isogeny's kernel is mapped to the identity
+              .bad (if r0 == .inf || r1 == .inf then "h2c.iso-kernel" else "h2c.rfc") ("expected=" ++ ref ++ " observed=" ++ rhs ++ " u=" ++ renderElem u0 ++ "," ++ renderElem u1)
+            else if g0 != r0 || g1 != r1 then
+              .diff ("generated-map=" ++ Curves.render C g0 ++ "," ++ Curves.render C g1 ++ " reference-map=" ++ Curves.render C r0 ++ "," ++ Curves.render C r1)
+            else .ok
+        | _, _, _, _ => .unsupported ("C19 h2c map " ++ curve)
+      | _ => .unsupported "C19 h2c field elements"
+  | _, _ => .unsupported ("C19 h2c curve " ++ curve)
+
+def h2cHashed (curve : String) (dst msg : Option ByteArray) (rhs : String) : Verdict :=
+  match dst, msg with
+  | some d, some m =>
+    match H2C.h2cFieldElems curve d m with
+    | some us => h2cDecide (H2C.modelCurve curve) us rhs
+    | none => .unsupported ("C19 h2c hash_to_field " ++ curve)
+  | _, _ => .unsupported "C19 h2c arguments"
+
 def handle (op : String) (args : List String) (rhs : String) : Verdict :=
   match op, args with
   | "hash", alg :: params =>
@@ -126,17 +171,49 @@ def handle (op : String) (args : List String) (rhs : String) : Verdict :=
     match h2fModel args with
     | some m => mirror m rhs
     | none => .unsupported "C19 h2f"
-  | "h2c", [curve, _dst, _msg] =>
-    -- the map itself is not modelled (TODO): the property's membership clause is decided exactly
-    match Curves.byName? curve with
-    | none => .unsupported ("C19 h2c curve " ++ curve)
-    | some C =>
-      match Curves.parse? C rhs with
-      | none => .bad "h2c.output" ("not a point: " ++ rhs)
-      | some P =>
-        if !Curves.onCurve C P then .bad "h2c.on-curve" ("hash-to-curve output is not on " ++ curve)
-        else if !Curves.inSubgroup C P then .bad "h2c.subgroup" ("hash-to-curve output is not in the prime-order subgroup of " ++ curve)
-        else .ok
+  -- `h2fs <curve> <modulus> <msg>`: ScalarField.Hash — the suite string, L and expander are the regenerated ones
+  | "h2fs", [curve, p, msg] =>
+    match H2C.genScalarSuite? curve, hexToNat? p, hexToBytes? msg with
+    | some (suite, L, exp), some p, some m =>
+      match H2C.xmdByName? exp with
+      | some X =>
+        match H2C.hashToField (H2C.expandXmd X) p L 1 (Gen.H2CMaps.appTag ++ suite).toUTF8 m with
+        | some [x] => spec "rfc9380.hash_to_field" (natToHex x) rhs
+        | _ => .unsupported "C19 h2fs model"
+      | none => .unsupported ("C19 h2fs expander " ++ exp)
+    | _, _, _ => .unsupported "C19 h2fs"
+  -- `h2fb <curve> <msg>`: BaseField.Hash (one element of the curve's base field under the curve's default DST)
+  | "h2fb", [curve, msg] =>
+    match H2C.genSuite? curve, Curves.byName? (if curve == "curve25519" then "ed25519" else curve), H2C.defaultDst? curve, hexToBytes? msg with
+    | some G, some C, some d, some m =>
+      match H2C.xmdByName? G.expander with
+      | some X =>
+        match H2C.hashToFieldM (H2C.expandXmd X) C.p G.m G.L 1 d m with
+        | some [e] => spec "rfc9380.hash_to_field" (renderElem e) rhs
+        | _ => .unsupported "C19 h2fb model"
+      | none => .unsupported ("C19 h2fb expander " ++ G.expander)
+    | _, _, _, _ => .unsupported "C19 h2fb"
+  -- `h2c <curve> <dst> <msg>`: HashWithDst
+  | "h2c", [curve, dst, msg] => h2cHashed curve (hexToBytes? dst) (hexToBytes? msg) rhs
+  -- `h2cdef <curve> <msg>`: Hash — the default DST is `appTag ++ suite` as regenerated from the source
+  | "h2cdef", [curve, msg] => h2cHashed curve (H2C.defaultDst? curve) (hexToBytes? msg) rhs
+  -- `h2cmap <curve> <u0> <u1>`: the point obtained from chosen field elements (Curve.Random with a scripted reader)
+  | "h2cmap", [curve, u0, u1] =>
+    match parseElem? u0, parseElem? u1 with
+    | some a, some b => h2cDecide curve [a, b] rhs
+    | _, _ => .unsupported "C19 h2cmap"
+  -- `h2cvec <curve> <dst> <msg> <expected>`: published test vector of the suite
+  | "h2cvec", [curve, dst, msg, expected] =>
+    if rhs != expected then .bad "h2c.rfc-vector" ("expected=" ++ expected ++ " observed=" ++ rhs)
+    else h2cHashed curve (hexToBytes? dst) (hexToBytes? msg) rhs
+  -- `h2chyp <curve>`: the hypotheses of the map theorems hold for the suite's constants (a failure is a broken tie)
+  | "h2chyp", [curve] =>
+    match H2C.theoremHypotheses curve with
+    | some hs =>
+      match hs.filter (fun h => !h.2) with
+      | [] => mirror "ok" rhs
+      | bad => .diff ("hypotheses failing for " ++ curve ++ ": " ++ ", ".intercalate (bad.map (·.1)))
+    | none => .unsupported ("C19 h2chyp " ++ curve)
   | _, _ => .unsupported ("C19 op " ++ op)
 
 end BronVerif.Drive.C19
